@@ -1,7 +1,7 @@
 /-
   C17 — every module object is destroyed exactly once, after its last reference is gone.
   Property theorems about the handle reference counter of blocc/complex.cpp (Model/Plugin.lean, parts H and S).
-  Helper lemmas: Proofs/Lemmas/Handle.lean.
+  Helper lemmas: Proofs/Lemmas/Handle.lean (invariant `Inv` of the counter, ownership invariant `Owned` of the contexts).
 -/
 import BlocV.Model.Plugin
 import BlocV.Proofs.Lemmas.Handle
@@ -211,7 +211,6 @@ theorem sstep_inv {s s' : S.SState} (hi : Inv s.h) (op : S.SOp) (h : S.sstep s o
       · rename_i h1 he; injection h with h; subst h; exact destructWhere_inv _ _ _ _ _ hi he
       · cases h
     · cases h
-  | orphan k => simp only [S.sstep] at h; split at h <;> first | (injection h with h; subst h; exact hi) | cases h
 
 theorem srun_inv {ops : List S.SOp} {s s' : S.SState} (hi : Inv s.h) (h : S.srun s ops = .ok s') : Inv s'.h := by
   induction ops generalizing s with
@@ -223,8 +222,7 @@ theorem srun_inv {ops : List S.SOp} {s s' : S.SState} (hi : Inv s.h) (h : S.srun
     · cases h
 
 /-- **Store level.** Whatever contexts do with values holding objects (construct, `Value::clone`, `Value::_clear`,
-move to another owner, runtime contexts of calls, release of a root context with everything cached under it, loss of
-a runtime context in `createEnv`): no object is ever destroyed twice, an object is destroyed iff no live handle shares
+move to another owner, runtime contexts of calls, release of a root context with everything cached under it): no object is ever destroyed twice, an object is destroyed iff no live handle shares
 it, and if no handle is left every object was destroyed exactly once. -/
 theorem store_destroy_exactly (ops : List S.SOp) (s : S.SState) (h : S.srun S.SState.init ops = .ok s) (o : Nat)
     (ho : o < s.h.nobj) :
@@ -243,20 +241,34 @@ theorem store_destroy_exactly (ops : List S.SOp) (s : S.SState) (h : S.srun S.SS
     obtain ⟨h2, h3⟩ := hi.dead o ho hf
     exact ⟨by omega, by constructor <;> intro _ <;> first | exact h2 | exact h3, fun _ => h3⟩
 
-/-- `no_leak_at_quiescence` at the level of contexts is PARTIAL on this tree. The full statement — "once every root
-context has been released, every object has been destroyed" — is false: the call whose argument raises loses the
-runtime context (`orphan`) together with the parameter values already bound. Witness (known finding
-C17.createEnv_arg_throw_leaks_context), and the same history without the lost context: -/
-def leakOps : List S.SOp := [.newCtx, .construct 0, .childCtx 0, .clone 0 1, .orphan 1, .clear 0, .release 0]
-def noLeakOps : List S.SOp := [.newCtx, .construct 0, .childCtx 0, .clone 0 1, .clear 0, .release 0]
+/-- **no_leak_at_quiescence** (context level), the full statement: for EVERY history of store-level operations, once
+every context has been released no handle is left, and every object the factory created has been handed back to its
+module exactly once. (Until `FunctorManager::createEnv` was repaired — finding C17.createEnv_arg_throw_leaks_context,
+fixed — a call whose argument raised lost its runtime context together with the parameter values already bound; the
+model had an `orphan` operation for it and this statement was false: the witness `leakOps` ended with every context
+released and `destroyed 0 = 0`. The context now goes back to the function's cache, no operation loses a context, and
+the ownership invariant `Owned` — every handle not yet destructed belongs to a live context — holds without exception.) -/
+theorem no_leak_at_quiescence_ctx (ops : List S.SOp) (s : S.SState) (h : S.srun S.SState.init ops = .ok s)
+    (hr : S.allReleased s = true) : quiescent s.h = true ∧ ∀ o, o < s.h.nobj → s.h.destroyed o = 1 := by
+  have hq := owned_allReleased_quiescent (srun_owned owned_init h) hr
+  exact ⟨hq, fun o ho => (store_destroy_exactly ops s h o ho).2.2 hq⟩
 
-def endsWith (ops : List S.SOp) (released noOrphan : Bool) (destroyed0 : Nat) : Bool :=
+/-- The former negation witness without its `orphan` step (the runtime context of the failing call — context 1, holding
+a copy of the object in a parameter slot — stays cached under root 0), and the history in which the caller drops its
+reference first: the object is destroyed by the release of the root, exactly once. -/
+def failedCallOps : List S.SOp := [.newCtx, .construct 0, .childCtx 0, .clone 0 1, .clear 0, .release 0]
+def twoRootsOps : List S.SOp :=
+  [.newCtx, .construct 0, .newCtx, .clone 0 1, .childCtx 1, .clone 1 2, .release 0, .give 2 1, .construct 2, .release 1]
+
+def endsWith (ops : List S.SOp) (released : Bool) (nobj : Nat) (destroyed : List Nat) : Bool :=
   match S.srun S.SState.init ops with
-  | .ok s => S.allReleased s == released && S.noOrphan s == noOrphan && s.h.destroyed 0 == destroyed0 && s.h.nobj == 1
+  | .ok s => S.allReleased s == released && s.h.nobj == nobj && (List.range nobj).map s.h.destroyed == destroyed
   | .error _ => false
 
-example : endsWith leakOps true false 0 = true := by decide
-example : endsWith noLeakOps true true 1 = true := by decide
+example : endsWith failedCallOps true 1 [1] = true := by decide
+example : endsWith twoRootsOps true 2 [1, 1] = true := by decide
+/-- not vacuous the other way either: while the root is live the object held by the cached runtime context is not destroyed -/
+example : endsWith (failedCallOps.take 5) false 1 [0] = true := by decide
 
 /-! ### the hazard of the class: a moved-from handle cannot be destructed
 
